@@ -286,6 +286,63 @@ def selftest_family(ctx, fam, inputs, records, n=40):
                                  f'records of family {fam.name}, e.g. {canon(missed)[:800]}')
 
 
+def run_concurrent(ctx, fam, inputs, nthreads=6, secs=3.0, name=None):
+    """The same family executed from several Python threads at once (each thread loops over its own share of `inputs`), with a very short
+    interpreter switch interval so that threads interleave inside Python-level code of the library.  For every input the record judged is
+    a deviating one if any execution under concurrency produced a record different from the one produced alone afterwards, else the
+    common record.  Catches state shared between calls through module globals, memo tables and caches."""
+    import threading
+    inputs = list(inputs)
+    shares = [inputs[t::nthreads] for t in range(nthreads)]
+    seen = [dict() for _ in inputs]
+    index = {id(inp): k for k, inp in enumerate(inputs)}
+    errors = []
+    stop = threading.Event()
+
+    def body(share):
+        try:
+            while not stop.is_set():
+                for inp in share:
+                    rec = fam.execute(inp)
+                    seen[index[id(inp)]].setdefault(canon(rec), rec)
+        except Exception:
+            errors.append(traceback.format_exc()[-1500:])
+            stop.set()
+
+    old = sys.getswitchinterval()
+    sys.setswitchinterval(1e-5)
+    try:
+        threads = [threading.Thread(target=body, args=(sh,)) for sh in shares if sh]
+        for th in threads:
+            th.start()
+        stop.wait(secs)
+        stop.set()
+        for th in threads:
+            th.join()
+    finally:
+        sys.setswitchinterval(old)
+    if errors:
+        raise tlc.MachineryError(f'driver {fam.name} failed under concurrency: {errors[0]}')
+    table = {}
+    for k, inp in enumerate(inputs):
+        alone = fam.execute(inp)
+        base = canon(alone)
+        dev = next((r for c, r in sorted(seen[k].items()) if c != base), None)
+        table[canon(inp)] = dev if dev is not None else alone
+
+    class _Conc(type(fam)):
+        pass
+    cf = _Conc.__new__(_Conc)
+    cf.__dict__.update(getattr(fam, '__dict__', {}))
+    cf.name = name or (fam.name + '[threads]')
+    cf.rule = (f'the inputs of a sample of {len(inputs)} scenarios executed from {nthreads} threads at once for {secs:g} s with a 10 microsecond switch interval; '
+               f'a record that differs from the one produced alone is judged in its place')
+    cf.exhaustive = False
+    cf.procs = 0
+    cf.execute = lambda inp: table[canon(inp)]
+    return run_family(ctx, cf, inputs=inputs)
+
+
 def raised_by_code_under_test(text):
     """Does a traceback (text) end inside the repository's own sources?  Then the exception came out of the code under test while the
     harness was driving it the way it does - successfully - on the unchanged tree: that is a verdict about the code, not a failure of
